@@ -185,6 +185,18 @@ Section Frame.
       split; [exists (e1 ++ e2); rewrite He2, He1; now rewrite app_assoc|]. split; auto.
       now rewrite Hm2, Hm1.
   Qed.
+
+  (** operations that only allocate ([String.Append], [String.Concat], [make]+[copy]) extend the
+      store; whatever was readable before reads the same afterwards.  Every other transformation
+      builds its bodies with these and with sub-slicing (which does not touch the store). *)
+  Theorem den_ext {N} (st e : store) (G : list (N * hdr)) :
+    (forall p, In p G -> hvalid st (snd p)) -> den (st ++ e) G = den st G.
+  Proof.
+    intros HG. unfold den. apply map_ext_in. intros p Hp. f_equal. apply read_ext. auto.
+  Qed.
+
+  Lemma append_copy_ext (st : store) h x : exists e, fst (append_copy st h x) = st ++ e.
+  Proof. unfold append_copy. simpl. eauto. Qed.
 End Frame.
 
 (** the value-level loop is the [expand] of the model *)
